@@ -638,6 +638,24 @@ func assembledChecks(w *World) {
 			w.violate("C11", "C11/verify-then-batch/accept-vs-reject", nil, "the signature of the certificate for %s, verified over the block and then presented as a batch signature with that block as every signer's message: cached:%v uncached:%v", w.reg.sym(qc.BlockHash()), verdictB(c), verdictB(p))
 		}
 	}
+	// a single signature over the very bytes the batch digest is built from (signer id, length, message), verified
+	// as a plain signature and then presented as that signer's batch signature over the message alone
+	if nd := w.nodes[len(w.nodes)-1]; nd != nil && w.viol == nil {
+		m := []byte("some message of the protocol")
+		M := append(append(append([]byte(nil), nd.id.ToBytes()...), hotstuff.View(len(m)).ToBytes()...), m...)
+		if sig, err := nd.raw.Sign(M); err == nil && sig != nil {
+			c, p, _ := au.each(func(x *cert.Authority) error {
+				if err := x.Verify(sig, M); err != nil {
+					return nil
+				}
+				return x.BatchVerify(sig, map[hotstuff.ID][]byte{nd.id: m})
+			})
+			w.probe("verify-then-batchverify-crafted-checked")
+			if c != p {
+				w.violate("C11", "C11/verify-then-batch/accept-vs-reject", nil, "a signature of %s over (id, length, m), verified as a plain signature and then presented as its batch signature over m: cached:%v uncached:%v", nd, verdictB(c), verdictB(p))
+			}
+		}
+	}
 	// timeout certificates: signatures over two different views
 	views := map[hotstuff.View][]part{}
 	var order []hotstuff.View
